@@ -236,7 +236,12 @@ func quoteNonString(v rt.Value) (string, bool) {
 	}
 	switch v.Type() {
 	case rt.IntType:
-		return strconv.Itoa(int(v.AsInt())), true
+		n := v.AsInt()
+		if n == math.MinInt64 {
+			// The decimal literal would read back as a float
+			return "0x8000000000000000", true
+		}
+		return strconv.FormatInt(n, 10), true
 	case rt.FloatType:
 		x := v.AsFloat()
 		if math.IsInf(x, 0) {
